@@ -11,7 +11,7 @@ enum wfn {
   F_fork, F_kill, F_waitpid, F_pipe, F_close, F_dup2, F_fcntl, F_open, F_read,
   F_write, F_poll, F_malloc, F_calloc, F_realloc, F_free, F_strdup, F_chdir,
   F_getcwd, F_getrlimit, F_execvp, F_sigaction, F_sigmask, F_sigemptyset,
-  F_sigfillset, F_fileno, F__exit, F_clock_gettime, F_other, F_N
+  F_sigfillset, F_fileno, F__exit, F_clock_gettime, F_other, F_anyalloc, F_N
 };
 extern const char *const wfn_name[F_N];
 
